@@ -92,7 +92,7 @@ def ob_hub_update_params(ctx):
         # pause flag: stored exactly as given (cleared when omitted)
         cl.append((S.struct_eq(st, g('paused'), mf('paused')), 'pause flag stored as given (cleared when omitted)', 'hub_update_params:paused'))
         ctx.require_all(st, cl, W.mv)
-        ctx.witness('update_params with all fields omitted', st, [opt_none(mf(f)) for f in ('epoch_period', 'unbonding_period', 'peg_recovery_fee', 'er_threshold', 'reward_denom')])
+        ctx.witness('update_params with all fields omitted', st, [opt_none(mf(f)) for f in ('epoch_period', 'unbonding_period', 'peg_recovery_fee', 'er_threshold', 'reward_denom')], W.mv, expect='ok')
         ctx.witness('update_params with threshold above 1 supplied', st, [mf('er_threshold').tag == 1, num(mf('er_threshold').alts[1].fields[0]) > E])
     ctx.need_witness('Ok path', nok > 0)
     ctx.expect_witness('all-omitted region', 'all fields omitted')
@@ -132,7 +132,7 @@ def ob_hub_update_config(ctx):
         cl.append((z3.Implies(W.mv['stsei_set'] == 1, S.struct_eq(st, g('stsei_token_contract'), o('stsei_token_contract'))),
                    'stSei token address cannot be changed once set', 'hub_update_config:stsei_fixed'))
         ctx.require_all(st, cl, W.mv)
-        ctx.witness('update_config setting the bSei token for the first time', st, [W.mv['bsei_set'] == 0, mf('bsei_token_contract').tag == 1])
+        ctx.witness('update_config setting the bSei token for the first time', st, [W.mv['bsei_set'] == 0, mf('bsei_token_contract').tag == 1], W.mv, expect='ok')
     ctx.need_witness('Ok path', nok > 0)
     ctx.expect_witness('first-time token registration', 'first time')
 
